@@ -77,8 +77,11 @@ def worker(ctx):
         for i, t in enumerate(short):
             v = pad(t, b'\0')
             if i < len(fs['feats']) and v not in used and draw(st.booleans()):
-                fs['feats'][i]['id'] = v; used.add(v)
-                fs['feat_version'] = 2
+                # 1 in 4: the font itself stores the id space padded (unusual but valid); sometimes next to its zero-padded twin
+                vs = pad(t, b' ') if draw(st.integers(0, 3)) == 0 else v
+                if vs not in used:
+                    fs['feats'][i]['id'] = vs; used.add(vs)
+                    fs['feat_version'] = 2
             if draw(st.booleans()) and all(l['tag'] != v for l in fs['langs']):
                 f = fs['feats'][draw(st.integers(0, len(fs['feats']) - 1))]
                 val = f['settings'][-1][0] if f['settings'] else 7
